@@ -16,10 +16,21 @@
      processor function f, every preset, every target set and every event schedule.
    * "After reset()": c05_dep_reset (the per-run state of a dependency is its initial state again); the
      run/reset/run cycles themselves are exercised on the implementation by the check.
-   Gap (stated, not proved): ENG takes "a vertex is invoked once, after its dependencies are resolved" and "finish(0)
-   when the last requested target is sealed" as its step guards; these are exactly what the A/B/C theorems establish
-   for the atomic-level machines, but the refinement ENG <- (A x B x C composed over a whole graph) is argued, not
-   machine-checked, and is tied to the code by the correspondence run instead.
+   Link between the levels (machine-checked as far as stated here): machine E composes, for ONE vertex with n
+   dependencies, the DEP protocol of every dependency (activator / condition releaser / target releaser as arbitrary
+   interleaved threads) with the VTX count-down.  c05_vx_invoke_once / c05_vx_only_resolved / c05_vx_invoked_when_done:
+   the vertex is invoked at most once, only when every dependency is resolved (condition sealed; target sealed if the
+   condition holds), and exactly once when all parties are through - for every n, every configuration, every schedule
+   (the finite DEP result is used per dependency, the count-down invariant by induction over the schedule).
+   c05_vx_refines: every step of E projects to a step of the abstract vertex ENG works with (stutter | seal one data |
+   invoke with guard "all resolved"); c05_eng_guard_is_resolved: that guard IS ENG's EInvoke guard (vertex_res <>
+   VBlocked).  c05_clo_refines: the closure counters mark finish(0) only when every bound target is sealed and flush
+   only when finished with no vertex live - the guards of EFinish0 / TFlush.  c05_terminates_finished (machine F = ENG
+   + wait()): every step decreases a measure, no unflushed state is stuck, a flushed state is finished with no vertex
+   running; so every maximal run ends flushed after at most `measure tinit` steps (no fairness needed).
+   Remaining gap (stated, not proved): the composition of E over ALL vertices of a graph with the activation stacks
+   (which thread runs recursive_activate / invoke, GraphVertex::activate's CAS) into one atomic-level machine that
+   refines ENG as a whole; ENG's EAct / EDepTrig / ERel are tied to the code by the correspondence run.
 
    KNOWN FINDING (sig run-races-external-release, listed in KNOWN_FINDINGS.txt; the quantifier's "externally injected
    data arriving concurrently with activation"): input = any graph whose input d is emitted by another thread, with
@@ -47,9 +58,15 @@ Print Assumptions c05_dep_protocol.
    (bad = false); when all three parties are through it has been told exactly once and _ready = "condition holds";
    _waiting_num stays in [-3, 2] *)
 Theorem c05_dep_exactly_once : forall c s, DReach c s ->
-  (notified s <= 1)%nat /\ bad s = false /\ (ddone c s = true -> notified s = 1%nat /\ drdy s = est_true c) /\ -3 <= wn s <= 2.
+  (notified s <= 1)%nat /\ bad s = false /\ (ddone c s = true -> notified s = 1%nat /\ drdy s = est_true c) /\ -3 <= wn s <= 2 /\
+  (notified s = 1%nat -> really_ready c s = true).
 Proof. exact af_dep_exactly_once. Qed.
 Print Assumptions c05_dep_exactly_once.
+
+(* every protocol step tells the vertex at most once more, or seals exactly one data and tells nobody *)
+Theorem c05_dep_steps : forall c s t s', DReach c s -> dstep c s t = Some s' -> dstep_ok s s' = true.
+Proof. exact af_dep_steps. Qed.
+Print Assumptions c05_dep_steps.
 
 Theorem c05_dep_notify_needs_ready : forall c s r, really_ready c s = false -> bad (notify c s r) = true.
 Proof. exact notify_bad. Qed.
@@ -89,6 +106,45 @@ Example c05_vertex_example :
   vinvoked (vrun 3 (vinit 3) [VActRet 0%nat; VReady 2%nat; VActRet 1%nat; VActEnd]) = 1%nat.
 Proof. exact af_vertex_example. Qed.
 
+(* ---- E. DEP x VTX composed: one vertex, n dependencies with arbitrary configurations cs, every schedule of the
+   2n+1 threads.  This is the guard ENG's EInvoke assumes. ---- *)
+Theorem c05_vx_invoke_once : forall cs s, (1 <= length cs)%nat -> Z.of_nat (length cs) < 2 ^ 64 -> XReach cs s ->
+  (vinvoked (xv s) <= 1)%nat.
+Proof. exact af_vx_invoke_once. Qed.
+Print Assumptions c05_vx_invoke_once.
+
+Theorem c05_vx_only_resolved : forall cs s, (1 <= length cs)%nat -> Z.of_nat (length cs) < 2 ^ 64 -> XReach cs s ->
+  vinvoked (xv s) = 1%nat ->
+  forall i c d, nth_error cs i = Some c -> nth_error (xdeps s) i = Some d -> notified d = 1%nat /\ really_ready c d = true.
+Proof. exact af_vx_only_resolved. Qed.
+Print Assumptions c05_vx_only_resolved.
+
+Theorem c05_vx_invoked_when_done : forall cs s, (1 <= length cs)%nat -> Z.of_nat (length cs) < 2 ^ 64 -> XReach cs s ->
+  vended (xv s) = true ->
+  (forall i c d, nth_error cs i = Some c -> nth_error (xdeps s) i = Some d -> ddone c d = true) ->
+  vinvoked (xv s) = 1%nat.
+Proof. exact af_vx_invoked_when_done. Qed.
+Print Assumptions c05_vx_invoked_when_done.
+
+(* refinement: what ENG sees of the vertex (which data are sealed, invoked or not) moves only by ENG's moves *)
+Theorem c05_vx_refines : forall cs s t s', (1 <= length cs)%nat -> Z.of_nat (length cs) < 2 ^ 64 -> XReach cs s ->
+  xstep cs s t = Some s' -> xabs_step cs (xproj s) (xproj s').
+Proof. exact af_vx_refines. Qed.
+Print Assumptions c05_vx_refines.
+
+(* ENG's EInvoke guard is exactly "every dependency resolved" *)
+Theorem c05_eng_guard_is_resolved : forall f v vx e E, (forall d x, e d = Some x -> E d = Some x) ->
+  (vertex_res f v vx e <> VBlocked <->
+   forallb (fun dp => resolved (dep_cfg E dp) (dep_flags e dp)) (deps vx) = true).
+Proof. exact af_eng_guard_is_resolved. Qed.
+Print Assumptions c05_eng_guard_is_resolved.
+
+Example c05_vx_example :
+  let cs := [ {| has_cond := true; holds := false |}; {| has_cond := false; holds := false |} ] in
+  let s := run xst (xstep cs) (xinit 2) [1;1;0;2;2;0;1; 4;4; 0;0; 0]%nat in
+  XReach cs s /\ vinvoked (xv s) = 1%nat /\ vended (xv s) = true.
+Proof. exact af_vx_example. Qed.
+
 (* ---- C. closure counters ---- *)
 Theorem c05_closure_counters : forall l, let s := crun cinit l in
   (cflush s <= 1)%nat /\
@@ -98,6 +154,12 @@ Theorem c05_closure_counters : forall l, let s := crun cinit l in
   (cfired s = true -> cbound s = 0 -> cfin s <> None).
 Proof. exact af_closure_counters. Qed.
 Print Assumptions c05_closure_counters.
+
+Theorem c05_clo_refines : forall l e, let s := crun cinit l in let s' := crun cinit (l ++ [e]) in
+  (cfin s = None -> cfin s' = Some 0 -> cfired s' = true /\ cbound s' = 0) /\
+  (cflush s' = S (cflush s) -> cfin s' <> None /\ cfired s' = true /\ clive s' = 0).
+Proof. exact af_clo_refines. Qed.
+Print Assumptions c05_clo_refines.
 
 Example c05_closure_example : cflush (crun cinit [CBind false; CVAdd; CFire; CDataRel; CVSub]) = 1%nat /\
                               cfin (crun cinit [CBind false; CVAdd; CFire; CDataRel; CVSub]) = Some 0.
@@ -144,3 +206,29 @@ Example c05_run_example :
   fin s = Some 0 /\ dv s 2%nat = Some None /\ ran s 0%nat = Some (VRun [] [Some 1]) /\
   sref (proc_fn ex_flags) ex_g ex_pre 2%nat = Some None.
 Proof. exact af_run_example. Qed.
+
+(* ---- F. termination (ENG + wait()): for every f, graph, preset, target set and schedule l ---- *)
+Theorem c05_terminates_finished : forall f g pre targets l, let s := trun f g pre targets tinit l in
+  (forall e s', tstep f g pre targets s e = Some s' -> (measure g pre targets s' < measure g pre targets s)%nat) /\
+  (flushed s = false -> exists e s', tstep f g pre targets s e = Some s') /\
+  (flushed s = true -> fin (base s) <> None /\ forall v, running g (base s) v = false) /\
+  (tsteps f g pre targets tinit l + measure g pre targets s <= measure g pre targets tinit)%nat.
+Proof. exact af_terminates_finished. Qed.
+Print Assumptions c05_terminates_finished.
+
+(* the base of such a run is an ENG run, so the theorems of part D apply to it *)
+Theorem c05_term_base_is_eng : forall f g pre targets l s, exists l0,
+  base (trun f g pre targets s l) = erun f g pre targets (base s) l0.
+Proof. exact trun_base. Qed.
+Print Assumptions c05_term_base_is_eng.
+
+(* reset: the per-run state is the initial state again, so every theorem above holds for the next run *)
+Theorem c05_reset_idempotent : forall f g pre targets s l,
+  ereset s = einit /\ erun f g pre targets (ereset s) l = erun f g pre targets einit l.
+Proof. exact af_reset_idempotent. Qed.
+Print Assumptions c05_reset_idempotent.
+
+Example c05_term_example :
+  let s := trun (proc_fn ex_flags) ex_g ex_pre [2%nat] tinit (map TBase ex_sched ++ [TFlush]) in
+  flushed s = true /\ fin (base s) = Some 0 /\ tsteps (proc_fn ex_flags) ex_g ex_pre [2%nat] tinit (map TBase ex_sched ++ [TFlush]) = 11%nat.
+Proof. exact af_term_example. Qed.
